@@ -17,6 +17,10 @@ pub struct Choices {
 	pub junk_pool: u8,
 	/// junk entries go in front of everything else (pushes used entries to higher indices)
 	pub junk_first: bool,
+	/// integer constants that get the lowest constant pool indices (geometry cases of C02: an `ldc` operand
+	/// that sits at an index <= 255 in the input and lands past 255 in a re-written file)
+	#[serde(default)]
+	pub pool_first: Vec<i32>,
 }
 
 impl Choices {
@@ -24,7 +28,7 @@ impl Choices {
 		Choices::default()
 	}
 	pub fn is_canonical(&self) -> bool {
-		self.pool_seed == 0 && self.attr_seed == 0 && self.stream.iter().all(|b| *b == 0) && self.junk_pool == 0
+		self.pool_seed == 0 && self.attr_seed == 0 && self.stream.iter().all(|b| *b == 0) && self.junk_pool == 0 && self.pool_first.is_empty()
 	}
 }
 
@@ -1219,6 +1223,9 @@ pub fn encode(c: &CClass, ch: &Choices) -> Result<Encoded, EncodeError> {
 
 fn encode_with(c: &CClass, ch: &Choices, preset: Option<Vec<PKey>>) -> Result<(Encoded, Vec<PKey>), EncodeError> {
 	let mut enc = Enc { pool: Pool::new(), ch: ChoiceStream::new(&ch.stream), attr_seed: ch.attr_seed, major: c.major, forms: Vec::new() };
+	for v in &ch.pool_first {
+		enc.pool.put(PKey::Int(*v));
+	}
 	if let Some(order) = &preset {
 		let mut junk_seed = ch.pool_seed ^ 0x5555;
 		if ch.junk_first {
